@@ -173,9 +173,9 @@ func init() {
 		base := filepath.Join(e.WS.Root, "cli")
 		_ = os.MkdirAll(base, 0o755)
 		var cases []cliCase
-		nIn, nSp := 1, 5
+		nIn, nSp := len(cliInputs), 5
 		if th {
-			nIn, nSp = len(cliInputs), 7
+			nSp = 7
 		}
 		for in := 0; in < nIn; in++ {
 			for dry := 0; dry < 2; dry++ {
@@ -183,6 +183,9 @@ func init() {
 					for lg := 0; lg < 2; lg++ {
 						for out := 0; out < 5; out++ {
 							for sp := 0; sp < nSp; sp++ {
+								if !th && in > 0 && (out > 1 || sp > 1) {
+									continue // quick: the other inputs get the flag cube on the two basic spellings
+								}
 								cases = append(cases, cliCase{in, dry, pr, lg, out, sp})
 							}
 						}
